@@ -30,7 +30,7 @@ fn profile() -> Profile {
     Profile {
         conns: (1, 2),
         steps: (1, 9),
-        rx: (128, 256),
+        rx: (200, 256),
         tx: (2048, 2048),
         handshake_failures: 0,
         cancels: false,
@@ -79,6 +79,15 @@ pub fn strategy() -> BoxedStrategy<Input> {
             // (a disconnect without a drain carries unacknowledged requests into the next
             // connection: the limit below then holds for the whole program, not per connection)
             let mut heavy_total = 0;
+            // sometimes one broker delivery is longer than 127 bytes (two-byte remaining length: a
+            // read cancelled between the two bytes must not confuse the framing)
+            if sel.first().is_some_and(|x| x % 4 == 0) {
+                if let Some(Step::Broker(BrokerAct::Deliver { payload, .. })) =
+                    case.conns.iter_mut().flat_map(|c| c.steps.iter_mut()).find(|s| matches!(s, Step::Broker(BrokerAct::Deliver { .. })))
+                {
+                    *payload = PayloadSpec::new(140, payload.seed);
+                }
+            }
             for cs in case.conns.iter_mut() {
                 // time may pass between operations, but never 5 s with inbound data left unread:
                 // otherwise a run whose cancelled poll read less than its twin's would (correctly)
